@@ -25,7 +25,7 @@ func (rc) Close() error { return nil }
 func implCR(f []string, o *oracleSink) string {
 	mkSrc := func(d, chunk, fa, ewd string) *scriptSrc {
 		k, wr := srcFail(fa)
-		return &scriptSrc{data: loadBlob(d), chunk: atoi(chunk), failAt: k, wrapEOF: wr, eofWithData: ewd == "1"}
+		return &scriptSrc{data: loadBlob(d), chunk: atoi(chunk), failAt: k, wrapEOF: wr == 1, wrapPlain: wr == 2, eofWithData: ewd == "1"}
 	}
 	src := mkSrc(f[2], f[3], f[4], f[5])
 	zr := lz4.NewCompressingReader(rc{src})
@@ -187,8 +187,8 @@ func genCR(w *bufio.Writer, thorough bool, r *Rng) {
 			fail = r.Intn(8)
 		}
 		failTok := fmt.Sprint(fail)
-		if fail >= 0 && r.Bool() {
-			failTok += "~" // the source's error wraps io.ErrUnexpectedEOF: still an error, not the end
+		if fail >= 0 {
+			failTok += []string{"", "~", "^"}[r.Intn(3)] // the error may wrap io.ErrUnexpectedEOF or io.EOF: still an error, not the end
 		}
 		var sizes []string
 		k := 1 + r.Intn(6)
@@ -238,7 +238,7 @@ func genCR(w *bufio.Writer, thorough bool, r *Rng) {
 			}
 			toks = append(toks, fmt.Sprintf("R=%s:%d:%d:%d", dataTok(r, sz2, 0), r.Pick([]int{0, 0, 5000}), fail2, r.Intn(2)))
 			if r.Intn(2) == 0 {
-				toks = append(toks, fmt.Sprintf("A=bs=%d,bc=%d", r.Pick(bss), r.Intn(2)))
+				toks = append(toks, fmt.Sprintf("A=bs=%d,bc=%d,sz=%d", r.Pick(bss), r.Intn(2), r.Pick([]int{0, 0, 55})))
 			}
 			k := 1 + r.Intn(3)
 			for j := 0; j < k; j++ {
